@@ -184,6 +184,7 @@ pub fn run_to_completion(
             intrs: vec![],
             max_instr,
             cycle_replies: false,
+            max_slices: 0,
         };
         match &plan_left {
             Plan::None => {}
